@@ -6,7 +6,9 @@ package main
 // clamping ifs, switch dispatch) instead of exponential.
 
 import (
+	"fmt"
 	"go/types"
+	"strings"
 
 	"golang.org/x/tools/go/ssa"
 )
@@ -293,27 +295,56 @@ func (r *Runner) mergeInto(a, b *State) bool {
 		}
 	}
 	ghost := map[string]Term{}
+	// a ghost variable missing on one side still has its initial (symbolic) value there
+	initialGhost := func(s *State, k string) (Term, bool) {
+		switch {
+		case strings.HasPrefix(k, "calls:"):
+			return Sym("calls_"+sanitize(strings.TrimPrefix(k, "calls:"))+"@entry", SInt), true
+		case strings.HasPrefix(k, "spec:"):
+			return Sym(fmt.Sprintf("ghost_%s@%d", sanitize(strings.TrimPrefix(k, "spec:")), s.epoch), SInt), true
+		}
+		return Term{}, false
+	}
 	for k, ta := range a.ghost {
 		tb, ok := b.ghost[k]
 		if !ok {
-			return false
+			if tb, ok = initialGhost(b, k); !ok {
+				return false
+			}
 		}
 		ghost[k] = Ite(g, ta, tb)
 	}
-	for k := range b.ghost {
+	for k, tb := range b.ghost {
 		if _, ok := a.ghost[k]; !ok {
-			return false
+			ta, ok := initialGhost(a, k)
+			if !ok {
+				return false
+			}
+			ghost[k] = Ite(g, ta, tb)
 		}
 	}
 	// call history: keep records present in both states (arguments merged by value)
 	lastCall := map[string]callRec{}
+	validOf := func(r callRec) Term {
+		if r.valid.IsZero() {
+			return True
+		}
+		return r.valid
+	}
 	for k, ra := range a.lastCall {
 		rb, ok := b.lastCall[k]
-		if !ok || len(ra.args) != len(rb.args) || len(ra.rets) != len(rb.rets) {
+		if !ok {
+			// called only on a's side: the record is valid exactly when the merged state came from a
+			nr := ra
+			nr.valid = And(g, validOf(ra))
+			lastCall[k] = nr
+			continue
+		}
+		if len(ra.args) != len(rb.args) || len(ra.rets) != len(rb.rets) {
 			continue
 		}
 		okAll := true
-		nr := callRec{}
+		nr := callRec{valid: Ite(g, validOf(ra), validOf(rb))}
 		for i := range ra.args {
 			mv, ok := mergeVal(g, ra.args[i], rb.args[i])
 			if !ok {
@@ -334,6 +365,13 @@ func (r *Runner) mergeInto(a, b *State) bool {
 			nr.rets = append(nr.rets, mv)
 		}
 		if okAll {
+			lastCall[k] = nr
+		}
+	}
+	for k, rb := range b.lastCall {
+		if _, ok := a.lastCall[k]; !ok {
+			nr := rb
+			nr.valid = And(Not(g), validOf(rb))
 			lastCall[k] = nr
 		}
 	}
